@@ -68,6 +68,13 @@ structure SWCfg where
   withStats : Bool
   withExtras : Bool            -- created_by, key/value metadata, unknown thrift fields
   padv : Nat                   -- value used to pad the last bit-packed group (must fit the width)
+  noNullCount : Bool := false  -- statistics carry min/max only (`null_count` is an optional member)
+
+/-- the statistics the spec writer puts into a page header (when it writes any): those of the page,
+with the optional `null_count` member left out when `noNullCount` -/
+def SWCfg.pageStatsResult (cfg : SWCfg) (c : Col) (es : List (Entry Bytes)) : Option Nat × Option Bytes × Option Bytes :=
+  let r := (pageStats c es).result c.ty c.isRequired
+  if cfg.noNullCount then (none, r.2) else r
 
 inductive Mutation
   | none
@@ -109,7 +116,7 @@ def specPageBytes (cfg : SWCfg) (c : Col) (codec : Nat) (compress : Bytes → By
     plainValues c.ty (nonNull es)
   let comp := if codec = 0 then raw else compress raw
   let st : List (Nat × TVal) :=
-    if cfg.withStats then [(5, statsT ((pageStats c es).result c.ty c.isRequired))] else []
+    if cfg.withStats then [(5, statsT (cfg.pageStatsResult c es))] else []
   let (valEnc, defEnc, repEnc) : Nat × Nat × Nat := match mu0 with
     | .valueEncoding e => (e, 3, 3)
     | .defEncoding e => (0, e, 3)
